@@ -1354,12 +1354,7 @@ class BaseCfgLine(object):
 
 
         retval = default
-        # Shortcut with a substring match, if possible...
-        if isinstance(regex, str) and (regex in self.text):
-            if debug > 0:
-                logger.debug("'{}' is a substring of '{}'".format(regex, self.text))
-            retval = self.text
-        elif re.search(regex, self.text) is not None:
+        if re.search(regex, self.text) is not None:
             ## TODO: use re.escape(regex) on all regex, instead of bare regex
             if debug > 0:
                 logger.debug("re.search('{}', '{}') matches".format(regex, self.text))
